@@ -338,6 +338,113 @@ Proof.
 Qed.
 Print Assumptions C13_adiabatic_gzr_area_refuted_while_centre_is_a_time.
 
+(* ---- round 2 ------------------------------------------------------------------------------------------------ *)
+(* (1) The runner executes fast forms (normalisation factor computed once, dyadic summation); they return the same
+   result as the specification forms above: same error, same gradients, same RF event except that the signal samples
+   are pointwise == .  So every theorem about make_sinc / make_gauss / make_arbitrary transfers to what is run. *)
+Theorem C13_fast_form_shaped :
+  forall gauss Sy pi w flip delay duration dwell0 cp fo po bw0 tbw rgz th mg ms use,
+  same_up_to_signal
+    (make_shaped_fast gauss (if gauss then gauss_x else sinc_x) Sy pi w flip delay duration dwell0 cp fo po bw0 tbw rgz th mg ms use)
+    (make_shaped gauss (if gauss then gauss_x else sinc_x) Sy pi w flip delay duration dwell0 cp fo po bw0 tbw rgz th mg ms use).
+Proof.
+  intros gauss. intros. apply make_shaped_fast_correct. destruct gauss; [apply gauss_spec|apply sinc_spec].
+Qed.
+Print Assumptions C13_fast_form_shaped.
+
+Theorem C13_fast_form_arbitrary :
+  forall Sy pi w flip bw0 delay dwell0 fo po ns mg ms rgz th tbw use,
+  same_up_to_signal
+    (make_arbitrary_fast Sy pi w flip bw0 delay dwell0 fo po ns mg ms rgz th tbw use)
+    (make_arbitrary Sy pi w flip bw0 delay dwell0 fo po ns mg ms rgz th tbw use).
+Proof. exact make_arbitrary_fast_correct. Qed.
+Print Assumptions C13_fast_form_arbitrary.
+
+Theorem C13_fast_signal_forms : forall w flip dwell pi ns,
+  Forall2 Qeq (shaped_signal_fast sinc_x w flip dwell pi) (shaped_signal sinc_x w flip dwell pi) /\
+  Forall2 Qeq (shaped_signal_fast gauss_x w flip dwell pi) (shaped_signal gauss_x w flip dwell pi) /\
+  Forall2 Qeq (arb_signal_fast w ns flip dwell pi) (arb_signal w ns flip dwell pi) /\
+  sumQ_fast w == sumQ w.
+Proof.
+  intros. split; [apply shaped_signal_fast_correct, sinc_spec|].
+  split; [apply shaped_signal_fast_correct, gauss_spec|].
+  split; [apply arb_signal_fast_correct|apply sumQ_fast_correct].
+Qed.
+Print Assumptions C13_fast_signal_forms.
+
+(* (2) binary64 ceil threshold.  The code evaluates k = ceil((rf.delay - gz.rise_time)/raster) (and the test
+   rf.delay > gz.rise_time) in binary64, the model exactly; near an integer quotient they may differ by one raster.
+   For EVERY integer k in the delta-bracket around e = max(rf.delay - gz.rise_time, 0)
+       0 <= k   and   e - delta*raster <= k*raster < e + raster + delta*raster
+   (every ceil of a quotient perturbed by at most delta) the coupling with gz.delay = k*raster satisfies all clauses:
+   RF not before the flat top (and at most delta*raster after its start), gz.delay a non-negative raster multiple,
+   less than (1+delta) raster later than necessary, RF delay never decreased.  The harness accepts a one-raster
+   disagreement only after checking that the implementation's k lies in this bracket with delta = 1e-6. *)
+Theorem C13_ceil_threshold_bracket : forall k fr raster delta r gz r' gz',
+  rf_delay_spec fr -> 0 < raster -> 0 <= delta ->
+  in_bracket delta raster r gz k ->
+  couple_with k fr raster r gz = (r', gz') ->
+  g_delay gz' + g_rise gz' <= r_delay r' /\
+  r_delay r' - (g_delay gz' + g_rise gz') <= delta * raster /\
+  g_delay gz' = inject_Z k * raster /\ (0 <= k)%Z /\
+  g_delay gz' < Qmax (r_delay r - g_rise gz) 0 + raster + delta * raster /\
+  r_delay r <= r_delay r' /\
+  r_delay r' < g_rise gz + Qmax (r_delay r - g_rise gz) 0 + raster + delta * raster /\
+  g_rise gz' = g_rise gz /\ g_flat gz' = g_flat gz /\ g_amp gz' = g_amp gz /\ r_signal r' = r_signal r /\ r_t r' = r_t r.
+Proof. exact couple_with_bracket. Qed.
+Print Assumptions C13_ceil_threshold_bracket.
+
+(* the model's own (exact) choice is the delta = 0 member of that family, for each maker's coupling expressions *)
+Theorem C13_model_choice_in_bracket : forall raster r gz r' gz',
+  0 < raster -> g_delay gz == 0 ->
+  (couple sinc_gz_delay sinc_rf_delay raster r gz = (r', gz') \/
+   couple gauss_gz_delay gauss_rf_delay raster r gz = (r', gz') \/
+   couple arb_gz_delay arb_rf_delay raster r gz = (r', gz') \/
+   couple adia_gz_delay adia_rf_delay raster r gz = (r', gz')) ->
+  exists k : Z, in_bracket 0 raster r gz k /\ g_delay gz' == inject_Z k * raster /\
+    r_delay r' == g_rise gz + inject_Z k * raster.
+Proof.
+  intros raster r gz r' gz' Hr D0 [H|[H|[H|H]]].
+  - eapply couple_in_bracket; eauto. apply sinc_gz_delay_spec. intros a b; reflexivity.
+  - eapply couple_in_bracket; eauto. apply gauss_gz_delay_spec. intros a b; reflexivity.
+  - eapply couple_in_bracket; eauto. apply arb_gz_delay_spec. apply arb_rf_delay_spec.
+  - eapply couple_in_bracket; eauto. apply adia_gz_delay_spec. apply adia_rf_delay_spec.
+Qed.
+Print Assumptions C13_model_choice_in_bracket.
+
+(* (3) block pulse for ALL accepted argument sets (duration given, or derived from bandwidth / time_bw_product and then
+   in general off the RF raster): with N = round(duration/raster) the pulse lasts N*raster and delivers exactly
+   flip * N*raster/duration; the deviation from the requested flip angle is at most |flip| * raster/(2*duration).
+   C13_block_flip_exact above is the case duration = N*raster. *)
+Theorem C13_block_flip_general : forall Sy pi flip delay duration bandwidth tbw fo po use r,
+  make_block Sy pi flip delay duration bandwidth tbw fo po use = Ok r -> 0 < pi ->
+  exists dur s t0 t1,
+    block_duration duration bandwidth tbw = Ok dur /\ 0 < dur /\
+    r_signal r = [s; s] /\ r_t r = [t0; t1] /\ t0 == 0 /\
+    let N := rnd_he (dur / s_rf_raster Sy) in
+    t1 == inject_Z N * s_rf_raster Sy /\ r_shape_dur r == inject_Z N * s_rf_raster Sy /\
+    2 * pi * (s * (t1 - t0)) == flip * (inject_Z N * s_rf_raster Sy / dur) /\
+    (0 < s_rf_raster Sy ->
+       Qabs (2 * pi * (s * (t1 - t0)) - flip) <= Qabs flip * (s_rf_raster Sy / (2 * dur))).
+Proof. exact block_flip_general. Qed.
+Print Assumptions C13_block_flip_general.
+
+(* (5) for every RF event returned by a maker (non-negative dwell and duration) the last sample time does not exceed
+   shape_dur: t[-1] = shape_dur - dwell/2 for the shaped pulses, t[-1] = shape_dur for the block pulse.
+   (Used by C10: its DecodedRf hypothesis e_tlast <= e_shape_dur holds for maker-built events.) *)
+Theorem C13_rf_t_last_le_shape_dur : forall r, rf_from_maker r -> last (r_t r) 0 <= r_shape_dur r.
+Proof. exact rf_t_last_le_shape_dur. Qed.
+Print Assumptions C13_rf_t_last_le_shape_dur.
+
+Example C13_bracket_nonempty :
+  in_bracket (1 # 1000000) (1 # 100000) (mkRf [] [] 0 0 0 0 0 (1 # 10000) None) (mkTrap 1 (3 # 100000) 1 (3 # 100000) 1 1 0) 7 /\
+  in_bracket (1 # 1000000) (1 # 100000) (mkRf [] [] 0 0 0 0 0 (1 # 10000) None) (mkTrap 1 (3 # 100000) 1 (3 # 100000) 1 1 0) 8 /\
+  ~ in_bracket (1 # 1000000) (1 # 100000) (mkRf [] [] 0 0 0 0 0 (1 # 10000) None) (mkTrap 1 (3 # 100000) 1 (3 # 100000) 1 1 0) 9.
+Proof.
+  unfold in_bracket. cbn [r_delay g_rise]. repeat split; try (vm_compute; discriminate); try (vm_compute; reflexivity).
+  intros (_ & _ & H). vm_compute in H. discriminate H.
+Qed.
+
 (* ---- non-vacuity: the hypotheses are satisfiable (a call that returns all three events) --------------------- *)
 Example C13_sinc_call_exists :
   exists r gz gzr,
